@@ -19,7 +19,7 @@
 struct c16_io C16IO;
 char c16_stream_object[8];
 
-/* append the first k of n source bytes (the first min(n,64) and the last are read: the source object must be n bytes long) */
+/* append the first k of n source bytes (the first min(n,16) and the last are read: the source object must be n bytes long) */
 static void c16_append(const void *p, size_t n, size_t k)
 {
   const uint8_t *s = (const uint8_t *) p;
@@ -41,20 +41,19 @@ static void c16_append(const void *p, size_t n, size_t k)
 static long c16_plan(size_t n, int is_fd)
 {
   uint32_t k = C16IO.n_write_calls++;
-  if (k >= C16IO.fault_call && C16IO.fault_kind == 2 && k < (uint32_t) C16IO.fault_call + C16IO.zero_repeat) {
-    C16IO.n_zero++;
-    return 0;
+  long r = (long) n;
+  if (C16IO.fault_kind == 2) {
+    if (k >= C16IO.fault_call && k < (uint32_t) C16IO.fault_call + C16IO.zero_repeat) r = 0;
+  } else if (k == C16IO.fault_call) {
+    if (C16IO.fault_kind == 1) r = is_fd ? -1 : 0;
+    else if (C16IO.fault_part < n) r = C16IO.fault_part;
   }
-  if (k == C16IO.fault_call && C16IO.fault_kind != 2) {
-    C16IO.faulted = 1;
-    if (C16IO.fault_kind == 1) {
-      if (is_fd) { errno = EIO; return -1; }
-      return 0;
-    }
-    if (C16IO.fault_part < n) return C16IO.fault_part;
-    C16IO.faulted = 0;
+  if (r < 0) { C16IO.faulted = 1; errno = EIO; }
+  else if ((size_t) r != n) {
+    if (r == 0 && is_fd) C16IO.n_zero++;        /* write(2) made no progress: not an error by itself */
+    else C16IO.faulted = 1;                     /* short count */
   }
-  return (long) n;
+  return r;
 }
 
 size_t fwrite(const void *p, size_t size, size_t nmemb, FILE *fp)
